@@ -18,6 +18,55 @@ theorem isEmpty_eq (v : V) : Spec.C04.isEmpty v = isEmptyValue v := by
     | text t => cases t <;> rfl
     | _ => rfl
 
+theorem elems_eq (v : V) : Spec.C04.elems v = argItems v := by cases v <;> rfl
+
+/-- loop (1) of AND / OR is "the leftmost element that is an error" -/
+theorem firstErrorItem_eq (truth : V → Option Bool) (xs : List S) :
+    firstErrorItem truth xs = xs.find? (fun x => (truth (.s x)).isNone) := by
+  induction xs with
+  | nil => rfl
+  | cons x rest ih =>
+    cases h : truth (.s x) with
+    | none => simp [firstErrorItem, h]
+    | some b => simp [firstErrorItem, h, ih]
+
+/-- loop (2) of AND / OR is "the first non-blank element whose truth value is not the neutral one" -/
+theorem firstDeciding_eq (truth : V → Option Bool) (isAnd : Bool) (xs : List S) :
+    firstDeciding truth isAnd xs =
+      (Spec.C04.nonBlank xs).findSome? (fun x => (truth (.s x)).filter (· != isAnd)) := by
+  induction xs with
+  | nil => rfl
+  | cons x rest ih =>
+    unfold Spec.C04.nonBlank at ih ⊢
+    by_cases he : isEmptyValue (.s x) = true
+    · simp [firstDeciding, he, isEmpty_eq, ih]
+    · cases h : truth (.s x) with
+      | none => simp [firstDeciding, he, isEmpty_eq, h, ih]
+      | some b =>
+        by_cases hb : b = isAnd
+        · simp [firstDeciding, he, isEmpty_eq, h, hb, ih]
+        · simp [firstDeciding, he, isEmpty_eq, h, hb, Option.filter]
+
+/-- the verdict of the model on one evaluated argument, read off the reference's two searches -/
+theorem argVerdict_ref (sem : Sem) (isAnd : Bool) (v : V) :
+    match argVerdict sem isAnd v with
+    | .error e => ∃ x, e = .s x ∧
+        (Spec.C04.elems v).find? (fun x => (sem.truth (.s x)).isNone) = some x
+    | .decided b =>
+        (Spec.C04.elems v).find? (fun x => (sem.truth (.s x)).isNone) = none ∧
+        (Spec.C04.nonBlank (Spec.C04.elems v)).findSome? (fun x => (sem.truth (.s x)).filter (· != isAnd)) = some b
+    | .neutral =>
+        (Spec.C04.elems v).find? (fun x => (sem.truth (.s x)).isNone) = none ∧
+        (Spec.C04.nonBlank (Spec.C04.elems v)).findSome? (fun x => (sem.truth (.s x)).filter (· != isAnd)) = none := by
+  rw [elems_eq, ← firstErrorItem_eq, ← firstDeciding_eq]
+  unfold argVerdict itemsVerdict
+  cases firstErrorItem sem.truth (argItems v) with
+  | some x => exact ⟨x, rfl, rfl⟩
+  | none =>
+    cases firstDeciding sem.truth isAnd (argItems v) with
+    | some b => exact ⟨rfl, rfl⟩
+    | none => exact ⟨rfl, rfl⟩
+
 theorem toArray_eq (rows : List (List V)) :
     toArray rows = .arr (rows.map fun r => r.map Spec.C04.scalar) := by
   unfold toArray
@@ -254,17 +303,22 @@ theorem evalSc_ref (hg : GoodV E cv ce) : ∀ (l : List Fx) (isAnd : Bool) (c : 
     cases r1 with
     | exc k n => exact ⟨hi1, by first | rfl | trivial⟩
     | val v =>
-      simp only [isEmpty_eq]
-      by_cases he : isEmptyValue v = true
-      · simp only [he, if_true]; exact evalSc_ref hg rest isAnd c1 hi1
-      · simp only [he]
-        cases sem.truth v with
-        | none => exact ⟨hi1, by first | rfl | trivial⟩
-        | some b =>
-          simp only
-          by_cases hb : b = isAnd
-          · simp only [hb, if_true]; exact evalSc_ref hg rest isAnd c1 hi1
-          · simp only [hb, if_false]; exact ⟨hi1, by first | rfl | trivial⟩
+      simp only
+      have hv := argVerdict_ref sem isAnd v
+      cases hav : argVerdict sem isAnd v with
+      | neutral =>
+        rw [hav] at hv
+        rw [hv.1, hv.2]
+        exact evalSc_ref hg rest isAnd c1 hi1
+      | decided b =>
+        rw [hav] at hv
+        rw [hv.1, hv.2]
+        exact ⟨hi1, rfl⟩
+      | error e =>
+        rw [hav] at hv
+        obtain ⟨x, rfl, hx⟩ := hv
+        rw [hx]
+        exact ⟨hi1, rfl⟩
 end
 
 /-- `evaluate` over a read-only model, started with an empty memo, returns the reference value of the
